@@ -12,7 +12,9 @@ import (
 	"runtime"
 	"runtime/debug"
 	"strconv"
+	"strings"
 	"sync/atomic"
+	"tags.cncf.io/container-device-interface/pkg/cdi"
 	"testing"
 
 	"tags.cncf.io/container-device-interface/verifharness/stats"
@@ -158,4 +160,17 @@ func yamlUnmarshal(b []byte, v any) (err error) {
 		return e
 	}
 	return err
+}
+
+// undecidedIfNoInotify stops the run as "undecided" (not as a violation) when an
+// auto-refresh cache could not create its watcher because the per-user limit of
+// inotify instances (fs.inotify.max_user_instances) is exhausted by other
+// processes on the machine. Descriptor-shortage windows created by a test
+// itself must not call this.
+func undecidedIfNoInotify(t fataler, c *cdi.Cache) {
+	for _, e := range c.GetSpecDirErrors() {
+		if strings.Contains(e.Error(), "failed to create watcher") {
+			t.Fatalf("VERIF-UNDECIDED the environment has no inotify instance left (fs.inotify.max_user_instances exhausted by other processes): %v", e)
+		}
+	}
 }
